@@ -1,11 +1,12 @@
 SPECIFICATION Spec
 CONSTANTS
-  Pairs <- PairsC
+  Pairs <- PairsCq
   FamC <- All64
   FamS <- Tiny
   FamD <- Tiny
   FamO <- Tiny
   Dump = TRUE
 INVARIANT RefShape
+INVARIANT ImplAgreesOffHazards
 INVARIANT Publish
 CHECK_DEADLOCK FALSE
